@@ -1,8 +1,8 @@
 """C20 — Each input file contributes exactly the HDU and WCS solution the user selected."""
 PROPERTY = "C20"
 LEVEL = "proof"
-CONTRACT_MODULES = ["contracts.specfuns", "contracts.collection"]
-FUNCTIONS = ["toasty.collection.SimpleFitsCollection._scan_hdus", "toasty.collection.CollectionLoader.load_paths", "toasty.collection.load"]
+CONTRACT_MODULES = ["contracts.specfuns", "contracts.collection", "contracts.cliopts"]
+FUNCTIONS = ["toasty.collection.SimpleFitsCollection._scan_hdus", "toasty.collection.CollectionLoader.load_paths", "toasty.collection.load", "toasty.collection.CollectionLoader.create_from_args"]
 LEMMAS = []
 SLOW = ()
 TRUSTED_BASE = [
